@@ -223,6 +223,7 @@ def main():
         mod = importlib.import_module(f"props.{prop.lower()}")
         if prop not in ("C07", "C13", "C16"):   # these run the API in worker processes with their own argument handling
             import common as _c
+            _c.install_aux_validation()    # before the layout wrappers: those wrap whatever is installed
             _c.install_layout_variation()
         mod.run(ctx)
         ctx.flush()
@@ -259,6 +260,11 @@ def main():
         else:
             print("BROKEN: harness crashed\n" + tb)
             sys.exit(2)
+
+    # auxiliary queries validated at the source (common.install_aux_validation)
+    import common as _cm
+    for f in _cm.AUX_FAILURES:
+        ctx.failures.append(f)
 
     # 4. decision
     known = [k for k in load_known_findings() if k.get("property") == prop and k.get("status") == "open"]
@@ -328,6 +334,7 @@ def main():
         "notes": ctx.notes,
         "object_history": dict(__import__("common").HISTORY_STATS),
         "argument_layouts": dict(__import__("common").LAYOUT_STATS),
+        "auxiliary_queries_validated": __import__("common").AUX_STATS["validated"],
         "source_fingerprint": {"changed_since_record": src_changed[:40], "escalation": ctx.escalate},
         "exhaustive": bool(getattr(ctx, "exhaustive", False)),
     }
